@@ -42,7 +42,14 @@ theorem C04_no_bounce_cutoff (rd cutoff tSweep tLoad ts : Int) (h0 : 0 ≤ rd)
 theorem C04_stale_marker_refused (c : Cfg) (e : KV)
     (hd : Header.isDeleted (maskedFlags e) = true) (hs : e.ts < c.cutoff) :
     merge c e [] = .ok none := by
-  rw [merge_absent, if_pos ⟨hd, hs⟩]
+  rw [merge_absent, if_pos ⟨by simp [entryDeleted, hd], hs⟩]
+
+/-- The same for a format-1 snapshot, where a deletion is written as an empty value without a
+    flag (the code before the D16 repair re-created these markers). -/
+theorem C04_stale_marker_refused_v1 (c : Cfg) (e : KV)
+    (hv : c.fv < 2) (he : e.val = []) (hs : e.ts < c.cutoff) :
+    merge c e [] = .ok none := by
+  rw [merge_absent, if_pos ⟨by simp [entryDeleted, he, hv], hs⟩]
 
 /-- A deletion recorded at time T wins against every version older than T, whichever of the two
     arrives first, … -/
